@@ -14,3 +14,8 @@ ASSUMPTIONS = [
 
 def default_nontrivial(r):
     return r.get("icls") == "ok"
+
+LEVEL_NOTE = ("Trusted: Lean kernel; axioms propext/Classical.choice/Quot.sound only; the hand-written model and its sampled "
+              "correspondence with the Rust code (harness + driver + generators); rounding is not modelled by the theorems "
+              "(deviation from the exact model is measured per case and bounded by tau).")
+TECHNIQUE = "Lean 4 theorems over an executable model + differential correspondence check against the Rust code"
